@@ -8,7 +8,7 @@ ADDENDA = {
     "C06": " https_wire: real ClientHellos against the https muxer with multi-route proxies; a name matching no live route must be closed, never bridged and never left hanging.",
     "C07": " tcpmux_group_credentials: credential-protected tcpmux groups; http_routes also draws the '/' location and empty request paths.",
     "C08": " A wrong-signature NAT-hole / visitor request must be answered with an error within the bound (the harness's own table snapshot is bounded, so a wedged server is reported, not waited for).",
-    "C09": " server_histories also drops a session while one of its registrations is in flight.",
+    "C09": " server_histories also drops a session while one of its registrations is in flight. manager_model: a quarter of the acquisitions are bound by their owner only after the next operation (the port manager grants, the proxy listens later: two registrations in flight at once).",
     "C10": " Also server-chosen (-any) port kinds and joins by a wrong-key intruder.",
     "C12": " Also a session drop with a registration in flight (regdrop), two sessions asking for the same name at the same moment (race: at most one is granted, a free name is granted to one of them), and sessions holding 10 / 40 / 120 further names (bulk) so that the teardown a re-login waits for takes a while; every name is re-registered right after the re-login is acknowledged.",
     "C14": " client_watchdog_backoff also checks run-id continuity (every re-login presents the run id the server last gave). healing faults: refuse, cut, black hole, dark (half-open) relay, reload during the outage, default loginFailExit, 120+ proxies.",
